@@ -5,6 +5,7 @@ package vh
 import (
 	"context"
 	"encoding/json"
+	"errors"
 	"fmt"
 	"reflect"
 	"time"
@@ -12,6 +13,7 @@ import (
 	"github.com/vipnode/vipnode/v2/ethnode"
 	"github.com/vipnode/vipnode/v2/internal/verif/vsched"
 	"github.com/vipnode/vipnode/v2/pool"
+	"github.com/vipnode/vipnode/v2/pool/balance"
 )
 
 // SignedEndpoints are the seven state-changing RPCs that take (signature, identity, nonce, ...).
@@ -161,8 +163,15 @@ func (c Call) invoke(w *PoolWorld, ctx context.Context) (res interface{}, err er
 
 // IsRefused reports whether err is an authentication refusal.
 func IsRefused(err error) bool {
-	_, ok := err.(pool.VerifyFailedError)
-	return ok
+	var v pool.VerifyFailedError
+	return errors.As(err, &v) // (also when a later refactor wraps the error)
+}
+
+// AsLowBalance extracts the low-balance error from err, wrapped or not.
+func AsLowBalance(err error) (balance.LowBalanceError, bool) {
+	var v balance.LowBalanceError
+	ok := errors.As(err, &v)
+	return v, ok
 }
 
 // FieldAlterations returns copies of v (a struct value, string, ...) each differing from v in
